@@ -447,3 +447,62 @@ Proof.
         -- intros _. destruct HL as [H1 H2]. simpl in H1, H2. subst c.
            destruct st as [[[m1 k1] i1] j1]. simpl in H2. subst m1. reflexivity.
 Qed.
+
+(* ---- the probe loop of Put ---- *)
+Lemma gen_set_slot d j k v : j < length d ->
+  go_upd (go_upd (rep d) (Z.of_nat j) (mk_T_Pair k (T_Pair_Value (go_idx zero_T_Pair (rep d) (Z.of_nat j))))) (Z.of_nat j)
+         (mk_T_Pair (T_Pair_Key (go_idx zero_T_Pair
+             (go_upd (rep d) (Z.of_nat j) (mk_T_Pair k (T_Pair_Value (go_idx zero_T_Pair (rep d) (Z.of_nat j))))) (Z.of_nat j))) v)
+  = rep (upd j (k, v) d).
+Proof.
+  intros Hj. rewrite rep_idx.
+  change (mk_T_Pair k (T_Pair_Value (rep_slot (sl d j)))) with (rep_slot (k, snd (sl d j))).
+  rewrite rep_upd, rep_idx. rewrite sl_upd_eq by exact Hj.
+  change (mk_T_Pair (T_Pair_Key (rep_slot (k, snd (sl d j)))) v) with (rep_slot (k, v)).
+  rewrite rep_upd, upd_upd_same. reflexivity.
+Qed.
+Lemma gen_set_value d j v :
+  go_upd (rep d) (Z.of_nat j) (mk_T_Pair (T_Pair_Key (go_idx zero_T_Pair (rep d) (Z.of_nat j))) v)
+  = rep (upd j (fst (sl d j), v) d).
+Proof.
+  rewrite rep_idx. change (mk_T_Pair (T_Pair_Key (rep_slot (sl d j))) v) with (rep_slot (fst (sl d j), v)).
+  apply rep_upd.
+Qed.
+
+(* Put's loop (for i := 1; i < len(m.data); i++): the model's scan from the slot after
+   [idx]; at the slot it stops at, the model's put_core writes what the code writes *)
+Lemma gen_put_loop p : p <= 62 -> forall lf fuel t k v idx ii,
+  length (t_data t) = 2 ^ p -> idx < 2 ^ p -> k <> 0%N -> 2 ^ p - ii < lf ->
+  let r := go_UInt64Map_Put_loop1 fuel lf (gotab p t) k v (Z.of_nat idx) (Z.of_nat ii) in
+  let m' := fst (fst (fst (fst (snd r)))) in
+  match scan (stop_key k) (2 ^ p - ii) (t_data t) (2 ^ p) (nxt (2 ^ p) idx) with
+  | Some x => fst r = GoRet tt /\
+              m' = gotab p (with_data t (upd x (k, v) (t_data t))
+                                      (if N.eqb (skey (t_data t) x) k then t_size t else (t_size t + 1)%Z))
+  | None => fst r = GoNext /\ m' = gotab p t
+  end.
+Proof.
+  intros Hp. induction lf as [|lf IH]; intros fuel t k v idx ii Hlen Hidx Hk Hlf r m'; [lia|].
+  subst m' r. unfold gotab, gom.
+  cbn [go_UInt64Map_Put_loop1 T_UInt64Map_data T_UInt64Map_size T_UInt64Map_growAt T_UInt64Map_mask T_UInt64Map_hasZeroKey T_UInt64Map_zeroVal].
+  unfold go_len. rewrite rep_length, Hlen, zltb_nat.
+  destruct (Nat.ltb_spec ii (2 ^ p)) as [Hii|Hii].
+  - replace (2 ^ p - ii) with (S (2 ^ p - S ii)) by lia. cbn [scan].
+    rewrite (gen_next p idx Hidx). set (j := nxt (2 ^ p) idx).
+    assert (Hj : j < 2 ^ p).
+    { unfold j, nxt. destruct (Nat.ltb_spec (S idx) (2 ^ p)); [lia|]. pose proof (Nat.pow_nonzero 2 p); lia. }
+    pose proof (gen_set_slot (t_data t) j k v ltac:(lia)) as Hnew.
+    pose proof (gen_set_value (t_data t) j v) as Hval.
+    rewrite (rep_idx (t_data t) j) in Hnew, Hval. rewrite (rep_idx (t_data t) j).
+    change (T_Pair_Key (rep_slot (sl (t_data t) j))) with (fst (sl (t_data t) j)) in *.
+    unfold stop_key, skey.
+    destruct (N.eqb (fst (sl (t_data t) j)) 0) eqn:E0.
+    + assert (E1 : N.eqb (fst (sl (t_data t) j)) k = false).
+      { apply N.eqb_eq in E0. apply N.eqb_neq. rewrite E0. auto. }
+      rewrite E1. cbn [orb]. rewrite E1. rewrite Hnew. split; reflexivity.
+    + destruct (N.eqb (fst (sl (t_data t) j)) k) eqn:E1.
+      * cbn [orb]. rewrite E1. rewrite Hval. apply N.eqb_eq in E1. rewrite E1. split; reflexivity.
+      * cbn [orb]. replace (Z.of_nat ii + 1)%Z with (Z.of_nat (S ii)) by lia.
+        pose proof (IH fuel t k v j (S ii) Hlen Hj Hk ltac:(lia)) as H. cbv zeta in H. unfold gotab, gom in H. exact H.
+  - replace (2 ^ p - ii) with 0 by lia. split; reflexivity.
+Qed.
